@@ -3,7 +3,8 @@ import os
 import sys
 import vlib
 
-sys.path.insert(0, os.path.dirname(os.path.abspath(__file__)))
+HERE = os.path.dirname(os.path.abspath(__file__))
+sys.path.insert(0, HERE)
 
 
 class P(vlib.Prop):
@@ -28,7 +29,9 @@ class P(vlib.Prop):
             ">= 60 ms away from equality (margin_ms) and every wait >= 15 ms (S4 exclusion); compared exactly with the model: "
             "payload and deadline class of every attempt, every logged delay, verdict, IsShutdownErr, IsPermanent.  Family 2: "
             "randomization_factor > 0, the model is run with the draws that reproduce the logged delays (a delay outside the "
-            "envelope makes the case fail); shutdown/cancel triggered from inside attempt k.  Kind 1: BackOffConfig.Validate on "
+            "envelope makes the case fail); shutdown/cancel triggered from inside attempt k.  Family 3: initial_interval 0 with "
+            "Shutdown completed inside attempt 0 (regression stream for the repaired S4, fix 9628cae8b): no attempt may start after "
+            "Shutdown returned and the error must be shutdown-classified; compared exactly.  Kind 1: BackOffConfig.Validate on "
             "generated configurations vs the translated Coq function.  A case is non-trivial when it has >= 2 attempts or a "
             "non-nil final error (retry) / a rejected configuration (validate); distinct = distinct case terms.")
     trusted_base = [
@@ -42,7 +45,7 @@ class P(vlib.Prop):
     assumptions = [
         "float64 arithmetic of backoff/v5 is modelled by exact rational arithmetic (generated multipliers / factors are dyadic or small rationals for which both agree on nanosecond integers)",
         "errors are linear wrapper chains (errors.As finds the first layer of the target type); multi-errors (errors.Join) are not modelled",
-        "a select whose branches are ready at the same instant is resolved by an oracle order; theorems about shutdown/cancel assume distinct instants; the correspondence keeps instants >= 60 ms apart and waits >= 15 ms (S4, initial_interval 0 racing stopCh, is outside the generated space)",
+        "a select whose branches are ready at the same instant is resolved by an oracle order; the theorem about cancellation assumes distinct instants (shutdown no longer does); the correspondence keeps instants >= 60 ms apart and waits >= 15 ms (family 1) / >= 8 ms (family 2); a timer/stop tie (initial_interval 0 racing stopCh, formerly S4) is exercised by family 3 and is deterministic since the post-timer re-check of stopCh",
         "time spent by retrySender between the return of an attempt and time.Now() is negligible (harness: bounded by the 60 ms margin; runs with timer jitter > 25 ms are repeated)",
     ]
 
